@@ -39,6 +39,36 @@
    X/28 and M/29 packets of the selected magazine that designate a non-default character set are outside the class (the
    reader then decodes every page with the LAST designation of the stream: see notes/C06.md); after the end box no
    attribute or start box (an attribute there restyles the last boxed run; see notes). *)
+(* CORRECTION 2026-10-02 (second audit, items N8 and N14) -- supersedes the header above where they differ.
+   1. Stale sentence.  The header's side condition "X/28 and M/29 packets of the selected magazine that designate a
+      non-default character set are outside the class" is no longer true: since the third wave they are INSIDE mux_ok with
+      their exact semantics (desig_ok, desig_final, last argument of cues_of; section "Character set designations" below).
+      Their first triplet is decoded with Hamming 24/18 (repo 6ce29fe), not read as three raw bytes.
+   2. What of the specification is the property and what is reader behaviour the specification COPIES.  The quantifier of
+      C06 (properties.jsonl) ranges over ground-truth schedules whose character set is given by the national option bits
+      (C12-C14) alone -- a schedule has no designation attribute -- and over multiplexings in which X/26..X/30 packets are
+      distractors that "never contribute text"; transmission errors are not among its multiplexing choices.  Inside that
+      quantifier every X/28 / M/29 packet is neutral_unit or inert (default designation: what the implementation oracle of
+      harness/ttx.go emits), desig_final = 0, and every stored cell passed parity.  Two things the theorems say BEYOND it
+      are not claims that the reader is right, they are the reader's behaviour transcribed so that the theorems stay true
+      of Go on the larger class:
+      (a) non-default designations: the reader parses the pages after the whole stream, so the designation on record at the
+          end (the last X/28 received while our page was open, else the last M/29) decides the table of EVERY page, earlier
+          ones included, and an X/28 designation outlives the page transmission it came with.  ETS 300 706 attaches X/28 to
+          one page transmission and M/29 to the pages of the magazine that follow; a stream that changes its designation
+          is decoded differently by a conforming decoder.  cues_of ... (desig_final ...) copies the reader here: reader
+          behaviour the specification copies, outside the quantifier.  Also copied from the reader: which of the
+          designations map to which G0 set (charset_for): cues_of reads the text off the hand-written standard
+          table only for the 27 Latin designation/option pairs where that table is complete (C06_std_table_is_reader_table)
+          and off the table generated from the code for the rest; the generated tables are compared with the hand-written
+          ones at every asserted position by C06_tables_are_standard, Arabic and Hebrew are not implemented
+          (C06_arabic_hebrew_not_implemented);
+      (b) parity-damaged cells: "characters failing parity contribute no text" is the property's clause and is proved
+          (C06_cell_bad_parity, C06_row_parity_error: no run contains the character).  That the damaged cell is stored as
+          0x00, which the row parser reads as the attribute "alpha black", so that the run is CUT there and the text after
+          it is coloured black until the next colour code, is reader behaviour the specification copies, outside the
+          quantifier (no ground-truth schedule has damaged cells); a display decoder shows a space and keeps the colour.
+      Proposed known-finding texts for both are in notes/C06.md ("Reader artefacts the specification copies"). *)
 From Coq Require Import List ZArith NArith Bool.
 From Astisub Require Import Kit.Base Kit.Str Gen.TtxTables Model.TtxRow Model.Ttx Model.TtxSpec.
 From Astisub Require Import Model.TtxHam Proofs.TtxHamProofs Model.TtxStd Proofs.TtxStdProofs Proofs.FuelTtx Proofs.TtxTables Proofs.TtxTotal Proofs.TtxRowProofs Proofs.TtxCodec Proofs.TtxSteps Proofs.TtxStream Proofs.TtxWitness.
